@@ -89,6 +89,12 @@ def behaviour_to_schedule(beh, mr, mid0=100, tok0=50):
     steps = []
     expected = []
     prev_exch = {}
+    nsub = 0
+
+    def midref(m):
+        # model message IDs are allocated 0,1,2.. in submission order
+        return {"of": m + 1} if m < nsub else {"free": m}
+
     for label, st in beh:
         emit = st.get("emit", [])
         exch = st.get("exch", {})
@@ -107,8 +113,9 @@ def behaviour_to_schedule(beh, mr, mid0=100, tok0=50):
         f = None if g is None else float(g - 2)
         if e0["k"] == "submit":
             s = {"at": t, "do": "submit", "q": e0["q"], "r": e0["r"], "con": bool(e0["con"])}
+            nsub += 1
         elif e0["k"] == "rx":
-            s = {"at": t, "do": "rx", "r": e0["r"], "ty": e0["ty"], "mid": (mid0 + e0["mid"]) & 0xFFFF}
+            s = {"at": t, "do": "rx", "r": e0["r"], "ty": e0["ty"], "mid": midref(e0["mid"])}
             if e0["cls"] == "resp":
                 s["tok"] = {"of": e0["q"]}
                 s["code"] = 69
@@ -127,7 +134,7 @@ def behaviour_to_schedule(beh, mr, mid0=100, tok0=50):
                     "t": e["t"] * 1024,
                     "r": e["r"],
                     "ty": e["ty"],
-                    "mid": (mid0 + e["mid"]) & 0xFFFF if e["k"] in ("tx", "rx") else 0,
+                    "mid": midref(e["mid"]) if e["k"] in ("tx", "rx") else 0,
                     "q": e["q"],
                     "con": bool(e["con"]) if e["k"] == "submit" else False,
                     "cls": e["cls"],
@@ -145,6 +152,18 @@ def behaviour_to_schedule(beh, mr, mid0=100, tok0=50):
 
 def _key(e):
     return (e["k"], e["t"], e["r"], e["ty"], e["mid"] if e["k"] in ("tx", "rx") else 0, e["q"], e["cls"])
+
+
+def resolve_mids(expected, meta, mid0):
+    out = []
+    mids = {int(k): v for k, v in meta["mids"].items()}
+    for e in expected:
+        e = dict(e)
+        m = e["mid"]
+        if isinstance(m, dict):
+            e["mid"] = mids.get(m["of"], -1) if "of" in m else (mid0 + 0x8000 + m["free"]) & 0xFFFF
+        out.append(e)
+    return out
 
 
 def compare(expected, real):
@@ -348,7 +367,7 @@ def check(rep, args, prefix, emphasis):
         # spec -> code comparison
         ndrift = 0
         for (s, exp), res in zip(model_scheds, results):
-            d = compare(exp, res["events"])
+            d = compare(resolve_mids(exp, res["meta"], s["mid0"]), res["events"])
             if d:
                 ndrift += 1
                 rep.add_drift("model behaviour not reproduced by implementation: " + d)
